@@ -459,3 +459,69 @@ Proof.
   all: rewrite ?len_app, ?(pre_tail ps m new_pt Htail), ?(pre_tail ps m (S k) Htail),
             ?(pre_tail ps m (S new_pt) Htail) by lia; lia.
 Qed.
+
+(* ---------------------------------------------------------------------------------- *)
+(* url_setter: a part that is followed by other text is spliced in through strp_       *)
+(* ---------------------------------------------------------------------------------- *)
+
+Lemma pre_S_pos ps n k : PW ps n -> 0 < pre (S k) ps.
+Proof. intros [_ _ Hs _]. apply pre_pos; [exact Hs|lia]. Qed.
+
+Ltac ssimp :=
+  cbv beta iota zeta delta
+    [w_r w_last w_strp w_pse w_use w_curr w_tgt w_file init_sst
+     s_r s_file s_last s_use s_strp s_pse s_curr s_tgt
+     do_append v_save_part set_save_part v_start_part
+     P_SCHEME P_SCHEME_SEP P_USERNAME P_PASSWORD P_HOST_START P_HOST P_PORT P_PATH_PREFIX P_PATH P_QUERY P_FRAGMENT
+     Nat.eqb Nat.leb Nat.ltb andb orb negb kstart app].
+
+(* PORT and QUERY written into the middle of the URL: start_part, text, save_part *)
+Theorem setter_splice_simple ps n f c file k v :
+  PW ps n -> (k = P_PORT \/ k = P_QUERY) -> (k < n)%nat ->
+  pre (S k) ps < len (concat ps) ->            (* some text follows part k *)
+  (k = P_PORT -> v <> []) ->
+  let s1 := run true (init_sst (conc ps n f c) file) [OStartPart k; OAppend v; OSavePart] in
+  s_r s1 = conc (setp ps k (sepc k ++ v)) n f c /\ s_strp s1 = [].
+Proof.
+  intros HPW Hk Hkn Hfollow Hv.
+  assert (Hnl : (n <= length ps)%nat) by (destruct HPW; lia).
+  assert (Hen : en (conc ps n f c) k = pre (S k) ps).
+  { rewrite en_conc by exact Hnl. destruct (Nat.ltb_spec k n); [reflexivity|lia]. }
+  pose proof (pre_S_pos ps n k HPW) as Hpos.
+  cbn [run fold_left step]. unfold v_start_part, set_start_part.
+  cbn [init_sst w_curr s_r]. rewrite Hen.
+  destruct (N.eqb_spec (pre (S k) ps) 0) as [E|_]; [lia|]. cbn [negb].
+  replace (len (r_norm (conc ps n f c))) with (len (concat ps)) by reflexivity.
+  destruct (N.ltb_spec (pre (S k) ps) (len (concat ps))) as [_|E]; [|lia].
+  destruct Hk as [-> | ->].
+  - (* PORT *)
+    ssimp.
+    assert (Hev : (len (58 :: v) <=? 1) = false).
+    { destruct v as [|x v]; [exfalso; apply Hv; reflexivity|]. rewrite !len_cons. apply N.leb_gt. lia. }
+    rewrite Hev. unfold replace_part1.
+    destruct (replace_part_conc ps n f c 6 6 (58 :: v) 0 HPW ltac:(lia) Hkn ltac:(intro; lia)) as [Hrp _].
+    rewrite Hrp. split; reflexivity.
+  - (* QUERY *)
+    ssimp. unfold replace_part1.
+    destruct (replace_part_conc ps n f c 9 9 (63 :: v) 0 HPW ltac:(lia) Hkn ltac:(intro; lia)) as [Hrp _].
+    rewrite Hrp. split; reflexivity.
+Qed.
+
+(* clear_part: port("") / search("") / hash("") *)
+Theorem setter_clear_part ps n f c file k :
+  PW ps n -> (1 <= k <= 10)%nat ->
+  s_r (run true (init_sst (conc ps n f c) file) [OClearPart k]) =
+  if (k <? n)%nat then conc (setp ps k []) n (N.ldiff f (N.shiftl 1 (N.of_nat k))) c else conc ps n f c.
+Proof.
+  intros HPW Hk.
+  assert (Hnl : (n <= length ps)%nat) by (destruct HPW; lia).
+  cbn [run fold_left step]. unfold v_clear_part, set_clear_part. cbn [init_sst s_r].
+  rewrite en_conc by exact Hnl.
+  destruct (Nat.ltb_spec k n) as [Hkn|Hkn].
+  - pose proof (pre_S_pos ps n k HPW) as Hpos.
+    destruct (N.eqb_spec (pre (S k) ps) 0) as [E|_]; [lia|]. cbn [negb w_r s_r].
+    unfold replace_part1.
+    destruct (replace_part_conc ps n f c k k [] 0 HPW ltac:(lia) Hkn ltac:(intro; lia)) as [Hrp _].
+    rewrite Hrp. reflexivity.
+  - reflexivity.
+Qed.
